@@ -430,3 +430,22 @@ case(C + "glue", params={"a": TupleOf(INT), "b": TupleOf(INT), "x": INT}, return
 case(C + "first_of", params={"t": TupleOf(STR)}, returns=STR, raises={"StopIteration": "len(t) == 0"},
      ensures={"v": "result == t[0]"}, canaries={"last": "result == t[len(t) - 1]"},
      gen=lambda rng: {"t": rng.choice([[], ["a"], ["a", "b"]])}, build=lambda d: {"t": tuple(d["t"])})
+
+# ---- xs.extend(g for g in src if g not in xs): the lazy-generator semantics, folded (round 4) --------------------------------
+case(
+    C + "extend_dedupe", params={"xs": List(INT), "src": List(INT)}, returns=List(INT),
+    ensures={"prefix": "result[:len(xs)] == xs", "bound": "len(xs) <= len(result) and len(result) <= len(xs) + len(src)",
+             "covers": "all(g in result for g in src)",
+             "new-from-src": "all(result[j] in src and result[j] not in xs for j in range(len(xs), len(result)))",
+             "no-dup-new": "all(all(result[j] != result[k] for k in range(j + 1, len(result))) for j in range(len(xs), len(result)))"},
+    # the eager (wrong) reading `xs + [g for g in src if g not in xs]` would satisfy 'len-eager'
+    canaries={"len-eager": "len(result) == len(xs) + len([g for g in src if g not in xs])", "all-added": "len(result) == len(xs) + len(src)", "nothing-added": "result == xs"},
+    portfolio=["cvc5"],  # (z3 needs more than the first 3 s round for the quantified facts; cvc5 is instant)
+    gen=lambda rng: {"xs": [rng.randint(0, 3) for _ in range(rng.randint(0, 3))], "src": [rng.randint(0, 5) for _ in range(rng.randint(0, 5))]},
+)
+case(
+    C + "extend_dedupe_small", params={"a": INT, "b": INT}, returns=List(INT), locals={"out": List(INT)},
+    ensures={"distinct": "implies(a != b, result == [a, b])", "same": "implies(a == b, result == [a])"},
+    canaries={"eager": "result == [a, b, a]", "always-two": "len(result) == 2"},
+    gen=lambda rng: {"a": rng.randint(0, 2), "b": rng.randint(0, 2)},
+)
